@@ -487,3 +487,16 @@ def question_mark_edges(body, du, call):
     sw = best[1]
     e0 = [(sw.bb, v, b) for v, b in sw.targets if v == 0]; e1 = [(sw.bb, v, b) for v, b in sw.targets if v == 1]
     return (e0[0] if e0 else (sw.bb, "otherwise", sw.otherwise)), (e1[0] if e1 else (sw.bb, "otherwise", sw.otherwise))
+
+
+def release_blocks(body, du, guard_locals):
+    """blocks in which a guard held in one of `guard_locals` is released: its drop terminator, or an explicit drop(guard) /
+    mem::drop(guard) call that moves it away"""
+    out = set()
+    for b in body.blocks:
+        if b.cleanup: continue
+        t = b.term
+        if t.kind == "drop" and t.place.l in guard_locals and not t.place.p: out.add(b.idx)
+        elif t.kind == "call" and not t.callee.indirect and t.callee.name == "drop" and "mem" in t.callee.path and t.args and t.args[0].place is not None and not t.args[0].place.p:
+            if any(l in guard_locals for l in ref_chain(du, t.args[0].place.l)): out.add(b.idx)
+    return out
